@@ -817,7 +817,7 @@ class ReadCap16(StructFormat):
 def counts(rng, mode):
     if isinstance(mode, tuple) and mode[0] == "count":
         return mode[1]
-    return rng.choice([0, 1, 1, 2, 3, 5, 9])
+    return rng.choice([0, 1, 1, 2, 3, 5, 9, rng.randrange(0, 40)])
 
 
 class GetLbaStatus(Format):
